@@ -167,13 +167,13 @@ func sameUints(a, b []uint) bool {
 func init() {
 	// ---------------------------------------------------------------- chains on the soft-delete model
 	register("C08", func(r *Result, rng *rand.Rand, tier string) {
-		n := map[string]int{"quick": 350, "thorough": 15000, "search": 4000}[tier]
+		n := map[string]int{"quick": 350, "thorough": 5000, "search": 4000}[tier]
 		c02Chains(r, rng, n, true)
 	})
 
 	// ---------------------------------------------------------------- other read paths, Unscoped, repeated delete
 	register("C08", func(r *Result, rng *rand.Rand, tier string) {
-		n := map[string]int{"quick": 200, "thorough": 8000, "search": 2000}[tier]
+		n := map[string]int{"quick": 200, "thorough": 3000, "search": 2000}[tier]
 		for i := 0; i < n && !expired(); i++ {
 			seed := rng.Int63()
 			c08Paths(r, seed)
@@ -182,7 +182,7 @@ func init() {
 
 	// ---------------------------------------------------------------- relations
 	register("C08", func(r *Result, rng *rand.Rand, tier string) {
-		n := map[string]int{"quick": 60, "thorough": 2500, "search": 600}[tier]
+		n := map[string]int{"quick": 60, "thorough": 1000, "search": 600}[tier]
 		for i := 0; i < n && !expired(); i++ {
 			seed := rng.Int63()
 			c08Rel(r, seed)
